@@ -133,6 +133,29 @@ def d_failing():
     nope
     nope2
     """
+def d_allskip():
+    """
+    >>> # xdoctest: +SKIP
+    >>> print('never')
+    never
+    """
+def d_reqmissing():
+    """
+    >>> # xdoctest: +REQUIRES(module:json.c11_not_there)
+    >>> print('never')
+    """
+def d_reqpkg():
+    """
+    >>> # xdoctest: +REQUIRES(module:json)
+    >>> print('has json')
+    has json
+    """
+def d_reqsub():
+    """
+    >>> # xdoctest: +REQUIRES(module:json.decoder)
+    >>> print('has json.decoder')
+    has json.decoder
+    """
 def d_await():
     """
     >>> import asyncio
@@ -232,9 +255,14 @@ def baselines():
         from xdoctest import directive
         _STATE['defaults'] = copy.deepcopy(directive.DEFAULT_RUNTIME_STATE)
         base = {}
+        from xmc import core
         for cfg in CONFIGS:
             for name, env in EVENTS:
+                # "run first in a clean process": the module-level state of the library is put back to what it
+                # was at import time before every baseline run (they all happen in the parent process)
+                core.reset_library_state()
                 base[(cfg, name, env)] = run(load(cfg)[name], env)
+        core.reset_library_state()
         for name, env in EVENTS:
             base[(name, env)] = base[('none', name, env)]
         _STATE['base'] = base
